@@ -103,12 +103,14 @@ func implBlockKey(m []sk.BlkAcc) string {
 }
 
 // endOfBlock checks the merged list of a finished block against the states the block went
-// through: (1) the index-addressable Lookup view returns the per-transaction worlds, and
-// (2) applying the list to the parent state with StateDB.ApplyBlockAccessList (no execution)
+// through: (1) the index-addressable Lookup view returns the per-transaction worlds, (1b) a
+// state opened on the parent through the access-list overlay reader at index L reads the
+// world before index L, and (2) applying the list to the parent state with StateDB.ApplyBlockAccessList (no execution)
 // reproduces the post-state root of the executed block.
 func endOfBlock(m *sk.Machine, block *bal.ConstructionBlockAccessList, baseRoot common.Hash, worlds []sk.World) []string {
 	enc := block.ToEncodingObj()
 	problems := m.U.CheckLookup(enc, worlds)
+	problems = append(problems, m.U.CheckOverlay(m.Env, baseRoot, enc, worlds)...)
 	parent, err := m.Env.Open(baseRoot)
 	if err != nil {
 		return append(problems, fmt.Sprintf("open parent state: %v", err))
